@@ -338,7 +338,7 @@ def id_generator(chk, ex):
                 return z3.And(conds)
             ua = a.payload if isinstance(a, Opaque) and a.tag == 'text-of-uuid' else a
             ub = b_.payload if isinstance(b_, Opaque) and b_.tag == 'text-of-uuid' else b_
-            m = chk.prove('id-generator/two-requests-any-distance-apart-get-different-ids', pc, same_uuid(ua, ub), extra=assume, prefer=[z3.ULE(gap, 1 << 20)])
+            m = chk.prove('id-generator/two-requests-any-distance-apart-get-different-ids', pc, same_uuid(ua, ub), extra=assume, prefer=[z3.ULE(gap, 140000)])
             if m is not None:
                 g_ = m.eval(gap, model_completion=True).as_long() + 1
                 if g_ > 200000:
